@@ -44,7 +44,8 @@ class SPEC:
             "into keys they own (rounds of records with increasing end times) and, under a harness-side ticket lock, into ONE shared key; "
             "M multi-record messages pushed through MessageChan to the built-in worker pool (Start() with 1-8 workers, drained by barrier "
             "messages, then Stop()); scanner goroutines (callbacks recorded: no key twice within a scan, none twice within a phase) and "
-            "query goroutines (GetNumFlows, GetExpiry, GetRecords, dump); two concurrent phases, the clock moved in between so that phase 1 "
+            "query goroutines (GetNumFlows, GetExpiry, GetRecords, dump, and `touch` = ForAllRecordsDo with a callback that WRITES a flag of every "
+            "record it is shown - the documented use of that callback - so that two such callbacks, or one and GetRecords, race if they are not mutually exclusive); two concurrent phases, the clock moved in between so that phase 1 "
             "exports + resets the prefix flows at deadline == now and phase 2 exports every flow of phase 1 while it is being updated and "
             "removes the inactive ones; the final flow map, queue set and export count must EQUAL the Lean model run on one serialisation "
             "(justified by serialisation_independent). Exit code 66 / 'WARNING: DATA RACE' / a Go runtime fatal error is a predicate "
@@ -239,7 +240,7 @@ def stress_case(rng, n_gor, tier):
                     ops.append(rng.choice(["nflows", "expiry"]))
             threads.append("g " + " ; ".join(ops))
         for _ in range(nquery):
-            ops = [rng.choice(["nflows", "expiry", "getrecs 0", "getrecs %d" % (1000 + rng.randint(0, 2)), "getrecs %d" % SHARED, "dump"])
+            ops = [rng.choice(["nflows", "expiry", "getrecs 0", "getrecs %d" % (1000 + rng.randint(0, 2)), "getrecs %d" % SHARED, "dump", "touch"])
                    for _ in range(rng.randint(3, 12))]
             threads.append("g " + " ; ".join(ops))
         segs.append("par " + " @ ".join(threads))
